@@ -889,3 +889,69 @@ Theorem fresh_socket W h t pid off fs fp :
 Proof.
   intros H. apply connect_fresh. now apply step_restore_unwrap.
 Qed.
+
+(** * The adapter falls back only with a reason *)
+
+(** retention under the weaker hypothesis: no clean-up pass of the history ran after the packet expired *)
+Lemma pkt_retained_passes W h :
+  at_sorted (emitted h) ->
+  forall p, In p (emitted h) ->
+  (forall tc, In (tc, OClean) h -> tc <= p_at p + W) ->
+  In p (st_packets (final W h)).
+Proof.
+  induction h as [|[t0 o] h IH] using rev_ind; intros S p HI X.
+  - contradiction.
+  - rewrite emitted_app in S, HI. specialize (IH (at_sorted_app_l _ _ S)).
+    assert (forall tc, In (tc, OClean) h -> tc <= p_at p + W) as X'
+        by (intros tc Hc; apply X; apply in_or_app; auto).
+    rewrite final_snoc.
+    destruct (inv_final W h) as [_ [d L] _].
+    destruct o as [k id opts | s0 | | q off].
+    + unfold step. simpl in *. destruct (loggable k); simpl in *.
+      * apply in_app_or in HI as [HI|HI]; apply in_or_app; auto.
+      * rewrite app_nil_r in HI. auto.
+    + unfold step. simpl in *. rewrite app_nil_r in HI. auto.
+    + unfold step. simpl in *. rewrite app_nil_r in HI.
+      rewrite clean_packets_filter.
+      * apply filter_In. split; auto. unfold pkt_expired.
+        assert (t0 <= p_at p + W) by (apply X; apply in_or_app; right; now left).
+        assert (p_at p + W <? t0 = false) as -> by (apply Z.ltb_ge; lia). reflexivity.
+      * apply at_sorted_app_l in S. rewrite L in S. eapply at_sorted_app_r; eauto.
+    + rewrite step_restore_fst.
+      destruct (restore_state W t0 q off (final W h)) as [-> _].
+      simpl in HI. rewrite app_nil_r in HI. auto.
+Qed.
+
+Lemma in_ids_packet off l : In off (map p_id l) -> exists p, In p l /\ p_id p = off.
+Proof. intros H. apply in_map_iff in H as [p [E HI]]. eauto. Qed.
+
+(** The adapter falls back ONLY for one of the four reasons. *)
+Theorem fallback_reason W h t t0 pid off :
+  times_sorted t0 (h ++ [(t, ORestore pid off)]) = true ->
+  snd (step W t (ORestore pid off) (final W h)) = Some None ->
+  last_persist pid h None = None
+  \/ (exists s td, last_persist pid h None = Some (s, td) /\ td + W < t)
+  \/ ~ In off (map p_id (emitted h))
+  \/ (exists p tc, In p (emitted h) /\ p_id p = off /\ In (tc, OClean) h /\ p_at p + W < tc).
+Proof.
+  intros TS H. apply times_sorted_snoc in TS as [TS F].
+  destruct (last_persist pid h None) as [[s td]|] eqn:LP; [|now left]. right.
+  destruct (Z_lt_dec (td + W) t) as [X|X]; [left; eauto|]. right.
+  destruct (in_dec N.eq_dec off (map p_id (emitted h))) as [HI|HI]; [|now left]. right.
+  destruct (in_ids_packet _ _ HI) as [p [Hp Ho]].
+  destruct (existsb (fun e => match snd e with OClean => p_at p + W <? fst e | _ => false end) h) eqn:EX.
+  - apply existsb_exists in EX as [[tc o] [Hc C]]. simpl in C. destruct o; try discriminate.
+    apply Z.ltb_lt in C. exists p, tc. auto.
+  - exfalso.
+    assert (forall tc, In (tc, OClean) h -> tc <= p_at p + W) as NC.
+    { intros tc Hc. destruct (Z_le_dec tc (p_at p + W)); auto. exfalso.
+      assert (existsb (fun e => match snd e with OClean => p_at p + W <? fst e | _ => false end) h = true);
+        [|congruence].
+      apply existsb_exists. exists (tc, OClean). split; auto. simpl. apply Z.ltb_lt. lia. }
+    pose proof (sess_retained W t h F _ _ _ LP ltac:(lia)) as G.
+    pose proof (pkt_retained_passes W h (proj2 (emitted_sorted _ _ TS)) p Hp NC) as HP.
+    destruct (after_offset_in off _ p HP Ho) as [rest A].
+    rewrite step_restore_snd in H. unfold restore in H. rewrite G in H.
+    assert (sess_expired W t td = false) as E by (apply Z.ltb_ge; lia).
+    rewrite E, A in H. simpl in H. discriminate.
+Qed.
